@@ -182,6 +182,21 @@ theorem releaseEntry_forest {s s' : State} {k : Nat} {r : WaitResult} (hf : Fore
     simp only [hk] at h
     exact release_forest (s := { s with sync := upd s.sync k none }) (Forest.congr (s := s) rfl rfl hf) h
 
+/-- Frame of the `claimed_twice` branch of `release_self` (no `GInv` needed). -/
+theorem handback_frame {s s' : State} {k : Nat} {st st' : SyncState}
+    (h : (if st.anyoneWaiting = true then
+            unblockRuntimesBlockedOn { s with sync := upd s.sync k (some st') } k .completed
+          else some { s with sync := upd s.sync k (some st') }) = some s') :
+    s'.transferred = s.transferred ∧ s'.tdeps = s.tdeps ∧ s'.bound = s.bound := by
+  cases haw : st.anyoneWaiting with
+  | false =>
+    simp only [haw, Bool.false_eq_true, if_false, Option.some.injEq] at h
+    subst h; exact ⟨rfl, rfl, rfl⟩
+  | true =>
+    simp only [haw, if_true] at h
+    have e := unblockRuntimesBlockedOn_sameTD h
+    exact ⟨e.transferred, e.tdeps, e.bound⟩
+
 theorem releaseSelf_forest {s s' : State} {k : Nat} (hf : Forest s)
     (h : releaseSelf s k = some s') : Forest s' := by
   unfold releaseSelf at h
@@ -191,8 +206,9 @@ theorem releaseSelf_forest {s s' : State} {k : Nat} (hf : Forest s)
     simp only [hk] at h
     cases hct : st.claimedTwice with
     | true =>
-      simp only [hct, if_true, Option.some.injEq] at h
-      subst h; exact Forest.congr (s := s) rfl rfl hf
+      simp only [hct, if_true] at h
+      obtain ⟨e1, e2, _⟩ := handback_frame h
+      exact Forest.congr e1 e2 hf
     | false =>
       simp only [hct, Bool.false_eq_true, if_false] at h
       exact release_forest (s := { s with sync := upd s.sync k none }) (Forest.congr (s := s) rfl rfl hf) h
